@@ -36,60 +36,58 @@ def scopeArgOfJson (j : Json) : ScopeArg :=
   | "clear" => .clear
   | _ => .invalid
 
-def step (st : State) (op : Json) : State × Json :=
+def hookOfJson (j : Json) : Hook :=
+  let r := jfield j "ret"
+  { ret := if jisNull r then none
+           else some ((jarr r).map (fun kv => (keyOfJson (jidx kv 0), valOfJson (jidx kv 1)))),
+    raises := jbool (jfield j "raises") }
+
+partial def opOfJson (op : Json) : Op :=
   match jstr (jfield op "op") with
   | "register" =>
     let modJ := jfield op "module"
-    let r : State.RegReq :=
+    .register
       { name := splitDot (jstr (jfield op "name")), nameValid := jbool (jfield op "nameValid"),
         module := if jisNull modJ then none else some (splitDot (jstr modJ)),
         moduleValid := jbool (jfield op "moduleValid"),
         sig := sigOfJson (jfield op "sig"), allow := jstrs (jfield op "allow"),
         deny := jstrs (jfield op "deny"), listTypesOk := jbool (jfield op "listTypesOk"),
-        objId := jnat (jfield op "obj"), isMethod := jbool (jfield op "method") }
-    match st.register r with
-    | .ok st' => (st', ok .null)
-    | .error e => (st, errJson e)
-  | "bind" =>
-    match st.bind (keyOfJson op) (valOfJson (jfield op "val")) with
-    | .ok st' => (st', ok .null)
-    | .error e => (st, errJson e)
-  | "query" =>
-    match st.query (keyOfJson op) with
-    | .ok v => (st, ok (valToJson v))
-    | .error e => (st, errJson e)
-  | "call" =>
-    let σ? := (jarr (jfield op "enter")).foldl (fun (acc : Option Scope) a =>
-      acc.bind (fun cur => enterScope cur (scopeArgOfJson a))) (some [])
-    match σ? with
-    | none => (st, err "ValueError")
-    | some σ =>
-    let (st', out) := st.call id (splitDot (jstr (jfield op "sel"))) σ
+        objId := jnat (jfield op "obj"), isMethod := jbool (jfield op "method"),
+        methods := (jstrs (jfield op "methods")).map splitDot }
+  | "bind" => if jbool (jfield op "block") then .bindBlock (keyOfJson op) (valOfJson (jfield op "val"))
+              else .bind (keyOfJson op) (valOfJson (jfield op "val"))
+  | "query" => .query (keyOfJson op)
+  | "call" => .call (splitDot (jstr (jfield op "sel"))) ((jarr (jfield op "enter")).map scopeArgOfJson)
       ((jarr (jfield op "args")).map valOfJson) (kvsOfJson (jfield op "kwargs"))
-    match out with
-    | .failed e => (st', callErrJson e)
-    | .received r _ => (st', ok (Json.mkObj [("params", kvsToJson r.params),
-        ("extra", .arr (r.extra.map valToJson).toArray), ("kw", kvsToJsonSorted r.kw),
-        ("scope", strs σ)]))
-  | "getb" =>
-    let sel := splitDot (jstr (jfield op "sel"))
-    let σ := jstrs (jfield op "scope")
-    let b := if jbool (jfield op "inherit") then getBindings st.config sel σ
-             else getBindingsStrict st.config sel σ
-    (st, ok (kvsToJsonSorted b))
-  | "operative" => (st, ok (storeToJson st.operative))
-  | "config" => (st, ok (storeToJson st.config))
-  | "enter" =>
-    match enterScope (jstrs (jfield op "cur")) (scopeArgOfJson (jfield op "arg")) with
-    | some s => (st, ok (strs s))
-    | none => (st, err "ValueError")
-  | _ => (st, err "bad-op")
+  | "getb" => .getb (splitDot (jstr (jfield op "sel"))) (jstrs (jfield op "scope")) (jbool (jfield op "inherit"))
+  | "hook" => .addHook (hookOfJson op)
+  | "finalize" => .finalize
+  | "clear" => .clear (jbool (jfield op "constants"))
+  | "constant" => .constant (splitDot (jstr (jfield op "name"))) (jbool (jfield op "nameValid"))
+      (valOfJson (jfield op "val"))
+  | "interactive" => .interactive (jbool (jfield op "on"))
+  | "enter" => .enter (jstrs (jfield op "cur")) (scopeArgOfJson (jfield op "arg"))
+  | "unlock" => .unlock ((jarr (jfield op "body")).map opOfJson) (jbool (jfield op "raises"))
+  | "locked" => .observe "locked"
+  | other => .observe other
+
+partial def outToJson : Out → Json
+  | .ok => ok .null
+  | .err e => errJson e
+  | .callErr e => callErrJson e
+  | .value v => ok (valToJson v)
+  | .received r σ => ok (Json.mkObj [("params", kvsToJson r.params),
+      ("extra", .arr (r.extra.map valToJson).toArray), ("kw", kvsToJsonSorted r.kw), ("scope", strs σ)])
+  | .kvs l => ok (kvsToJsonSorted l)
+  | .store s => ok (storeToJson s)
+  | .flag b => ok (.bool b)
+  | .scope s => ok (strs s)
+  | .names l => ok (strs (sortStrs l))
+  | .body outs => ok (Json.mkObj [("body", .arr (outs.map outToJson).toArray)])
 
 def run (case : Json) : Json :=
-  let ops := jarr (jfield case "ops")
-  let (_, outs) := ops.foldl (fun (acc : State × Array Json) op =>
-    let (st', o) := step acc.1 op
-    (st', acc.2.push o)) (({} : State), #[])
-  Json.mkObj [("out", Json.arr outs)]
+  let ops := (jarr (jfield case "ops")).map opOfJson
+  let (_, outs) := runOps initState ops
+  Json.mkObj [("out", Json.arr (outs.map outToJson).toArray)]
 
 end Gin.Drv.GinDom
